@@ -66,7 +66,7 @@ func Supported(m *pgen.Msg) bool {
 		if f.Skip {
 			continue
 		}
-		if f.Elem.Kind == pgen.MsgLeaf || f.Elem.Kind == pgen.CustomLeaf || f.Elem.Kind == pgen.RawLeaf {
+		if f.Elem.Kind == pgen.MsgLeaf || f.Elem.Kind == pgen.CustomLeaf || f.Elem.Kind == pgen.RawLeaf || f.Elem.Kind == pgen.BoxLeaf || f.Elem.Kind == pgen.BoxCustom {
 			return false
 		}
 		if f.Number < 1 || (f.Number >= 19000 && f.Number <= 19999) {
